@@ -87,6 +87,17 @@ func (m *InMemory) Put(path string, data []byte) error {
 	return nil
 }
 
+// Remove data at given path.
+func (m *InMemory) Remove(path string) error {
+	path = pathSeparators.Replace(path)
+	_, found := m.storage[path]
+	if !found {
+		return api.ErrNotExist
+	}
+	delete(m.storage, path)
+	return nil
+}
+
 // ListAll enumerates all paths currently stored.
 // The paths are returned in lexicographical order.
 func (m *InMemory) ListAll() ([]string, error) {
